@@ -189,8 +189,20 @@ func (c *FnCtx) cone(terms ...string) map[string]bool {
 
 // preamble emits sorts + sliced defs for the given cone.
 func (c *FnCtx) preamble(in map[string]bool) string {
+	body := c.preambleBody(in)
 	var b strings.Builder
 	b.WriteString(prelude)
+	for _, oa := range optionalAxioms {
+		if strings.Contains(body, oa.sym) {
+			b.WriteString(oa.text)
+		}
+	}
+	b.WriteString(body)
+	return b.String()
+}
+
+func (c *FnCtx) preambleBody(in map[string]bool) string {
+	var b strings.Builder
 	for _, s := range c.sortDecls {
 		b.WriteString(s)
 		b.WriteByte('\n')
@@ -371,6 +383,18 @@ func num(n int64) string {
 	return fmt.Sprintf("%d", n)
 }
 
+var optionalAxioms = []struct{ sym, text string }{
+	{"(ix ", `(declare-fun ix (Int Int) Int)
+(assert (forall ((a Int) (b Int)) (! (= (ix a b) (+ a b)) :pattern ((ix a b)))))
+`},
+	{"(isprefix ", `(declare-fun isprefix ((Array Int Int) Int Int (Array Int Int) Int Int) Bool)
+(assert (forall ((pa (Array Int Int)) (po Int) (pl Int) (sa (Array Int Int)) (so Int) (sl Int)) (! (= (isprefix pa po pl sa so sl) (and (<= pl sl) (forall ((j Int)) (=> (and (<= 0 j) (< j pl)) (= (select pa (+ po j)) (select sa (+ so j))))))) :pattern ((isprefix pa po pl sa so sl)))))
+`},
+	{"(byteseq ", `(declare-fun byteseq ((Array Int Int) Int Int (Array Int Int) Int Int) Bool)
+(assert (forall ((pa (Array Int Int)) (po Int) (pl Int) (sa (Array Int Int)) (so Int) (sl Int)) (! (= (byteseq pa po pl sa so sl) (and (= pl sl) (forall ((j Int)) (=> (and (<= 0 j) (< j pl)) (= (select pa (+ po j)) (select sa (+ so j))))))) :pattern ((byteseq pa po pl sa so sl)))))
+`},
+}
+
 const prelude = `(set-option :produce-models true)
 (set-logic ALL)
 (declare-sort Str 0)
@@ -390,7 +414,5 @@ const prelude = `(set-option :produce-models true)
 (define-fun trem ((a Int) (b Int)) Int (- a (* b (tdiv a b))))
 (define-fun be32 ((a (Array Int Int)) (o Int)) Int (+ (* 16777216 (select a o)) (* 65536 (select a (+ o 1))) (* 256 (select a (+ o 2))) (select a (+ o 3))))
 (define-fun be16 ((a (Array Int Int)) (o Int)) Int (+ (* 256 (select a o)) (select a (+ o 1))))
-(define-fun isprefix ((pa (Array Int Int)) (po Int) (pl Int) (sa (Array Int Int)) (so Int) (sl Int)) Bool (and (<= pl sl) (forall ((j Int)) (=> (and (<= 0 j) (< j pl)) (= (select pa (+ po j)) (select sa (+ so j)))))))
-(define-fun byteseq ((pa (Array Int Int)) (po Int) (pl Int) (sa (Array Int Int)) (so Int) (sl Int)) Bool (and (= pl sl) (forall ((j Int)) (=> (and (<= 0 j) (< j pl)) (= (select pa (+ po j)) (select sa (+ so j)))))))
 (define-fun be64 ((a (Array Int Int)) (o Int)) Int (+ (* 4294967296 (be32 a o)) (be32 a (+ o 4))))
 `
